@@ -9,7 +9,7 @@ KERNEL = [os.path.join(VERIF, "sim")]
 
 
 def build():
-    h = file_hash([os.path.join(REPO, "sbepp/src"), SRC] + KERNEL)
+    h = file_hash([os.path.join(REPO, "sbepp/src"), SRC, os.path.abspath(__file__)] + KERNEL)
     inc = "-I" + os.path.join(REPO, "sbepp/src")
 
     def jobs(d):
